@@ -40,7 +40,8 @@ Spec == Init /\ [][Next]_<<pos, ty>>
 
 
 \* the sample always holds the unlogged leaf types (few, and each needs its own support code)
-Always == \/ pos \in {"optredact", "reqredact", "optnolog", "reqnolog", "paramredact"} /\ ty.k = "leaf"
+Always == \/ pos \in {"optdefault", "reqdefault", "const", "typedefdefault"} /\ ty.k = "leaf"        \* every leaf type has its own literal / pointer helper
+          \/ pos \in {"optredact", "reqredact", "optnolog", "reqnolog", "paramredact"} /\ ty.k = "leaf"
           \/ pos \in {"optplain", "reqplain", "param"} /\ (ty.n \in {"TTI", "TTS", "TTE", "TTL", "TTD", "TTBo"} \/ ty.a \in {"TTI", "TTS", "TTD", "TTBo"} \/ ty.b \in {"TTI", "TTS", "TTD", "TTBo"})
 EmitCase == (pos # "" /\ (Always \/ TLCGet("distinct") % EmitMod = EmitPick)) => PrintT(<<"CASE", ToJson([pos |-> pos, ty |-> ty])>>)
 =============================================================================
